@@ -5,9 +5,11 @@ import (
 	"encoding/binary"
 	"fmt"
 	"net"
+	"sync"
 	"time"
 
 	"hop.computer/hop/keys"
+	"hop.computer/hop/kravatte"
 	"hop.computer/hop/transport"
 	"verifharness/hv"
 )
@@ -354,4 +356,221 @@ func (w *World) C19Hidden(r *hv.Rand) {
 		}
 	}
 	q.Emit("hidden-timestamp-boundaries-and-late-replay", fmt.Sprintf("%d fully valid hidden requests with boundary timestamp fields, then %d of them replayed after the window", len(vals), len(replay)), ok, sig, what, true)
+}
+
+// ForgeClientAck: what a party that never sent a ClientHello can compute on its own: a cookie
+// sealed under a key of its choice with the correct associated data H(ekem || ip || port) for the
+// address it sends from, and a ClientAck whose transcript (rebuilt by the server from that cookie)
+// and MAC are self-consistent. Schedule and layout from handshake_spec.md, real Cyclist / SANSE.
+func ForgeClientAck(key [16]byte, from *net.UDPAddr, name string) []byte {
+	kem := must(keys.GenerateKEMKeyPair(rand.Reader))
+	kpub, _ := kem.Public.MarshalBinary()
+	eph := keys.GenerateNewX25519KeyPair()
+	k := make([]byte, 32)
+	rand.Read(k)
+	_, ad := CookieADSpec(kpub, from)
+	aead, err := kravatte.NewSANSE(key[:])
+	if err != nil {
+		panic(err)
+	}
+	cookie := aead.Seal(nil, nil, k, ad)
+	sh := &Shadow{Fps: [][]byte{nil}}
+	sh.Reset()
+	sh.Absorb([]byte(PQName))
+	sh.Absorb([]byte{1, 1, 0, 0})
+	sh.Absorb(kpub)
+	sh.Squeeze(16)
+	sh.Absorb([]byte{2, 0, 0, 0})
+	sh.Absorb(k)
+	sh.Absorb(cookie)
+	sh.Squeeze(16)
+	sh.Rekey(PQName)
+	hdr := []byte{3, 0, 0, 0}
+	sh.Absorb(hdr)
+	sh.Absorb(eph.Public[:])
+	sh.Absorb(kpub)
+	sh.Absorb(cookie)
+	pt := make([]byte, 256)
+	copy(pt, sniBlock(0, []byte(name)))
+	esni := sh.Encrypt(pt)
+	mac := sh.Squeeze(16)
+	out := append([]byte(nil), hdr...)
+	out = append(out, eph.Public[:]...)
+	out = append(out, kpub...)
+	out = append(out, cookie...)
+	out = append(out, esni...)
+	return append(out, mac...)
+}
+
+// C19ForgedCookies: ClientAcks from parties that never sent a ClientHello, carrying cookies they
+// sealed themselves under guessable keys — at server start and after a key rotation. Accepted
+// (answered, or state allocated) only if the cookie is sealed under the server's CURRENT key.
+func (w *World) C19ForgedCookies(r *hv.Rand) {
+	cv := w.P.Verify(PolStore, "", nil, false)
+	var ones, rnd, zero [16]byte
+	for i := range ones {
+		ones[i] = 0xff
+	}
+	copy(rnd[:], r.Bytes(16))
+	for _, phase := range []string{"at server start", "after one key rotation", "after two key rotations"} {
+		srv := NewSrv(SingleConfig(w.Srv, cv, false))
+		q := NewSeq(srv, []*Ident{w.Srv}, false)
+		ok, sig, what := true, "", ""
+		var old [][16]byte
+		switch phase {
+		case "after one key rotation":
+			old = append(old, srv.S.VerifHsCookieKey())
+			q.Rotate()
+		case "after two key rotations":
+			old = append(old, srv.S.VerifHsCookieKey())
+			q.Rotate()
+			old = append(old, srv.S.VerifHsCookieKey())
+			q.Rotate()
+		}
+		type fk struct {
+			name   string
+			key    [16]byte
+			accept bool
+		}
+		keysToTry := []fk{{"the all-zero key", zero, false}, {"the all-ones key", ones, false}, {"a random key", rnd, false}}
+		for i, o := range old {
+			keysToTry = append(keysToTry, fk{fmt.Sprintf("rotated-out key #%d", i+1), o, false})
+		}
+		keysToTry = append(keysToTry, fk{"the server's current key (control)", srv.S.VerifHsCookieKey(), true})
+		for _, k := range keysToTry {
+			a := w.NextAddr()
+			h0, s0, _ := srv.S.VerifHsTables()
+			out, _ := q.Step(a, ForgeClientAck(k.key, a, w.SrvName), "ClientAck[cookie forged under "+k.name+"]", nil)
+			h1, s1, _ := srv.S.VerifHsTables()
+			accepted := len(out) > 0 || h1 != h0 || s1 != s0
+			if accepted && !k.accept && ok {
+				ok, sig = false, "C19:client-ack-accepted-with-cookie-not-under-current-key"
+				what = fmt.Sprintf("%s: a ClientAck from %s, which never sent a ClientHello, with a cookie sealed by the sender under %s (correct AD, consistent MAC) was answered / allocated state", phase, a, k.name)
+			}
+			if !accepted && k.accept && ok {
+				ok, sig, what = false, "C19:honest-client-ack-rejected", phase+": a ClientAck whose cookie is sealed under the current key for the sender's address and key was rejected"
+			}
+		}
+		q.Emit("forged-cookies/"+phase, "ClientAcks with sender-forged cookies under all-zero / all-ones / random / rotated-out / current key, "+phase, ok, sig, what, true)
+	}
+}
+
+// liveConn: a blocking in-memory socket for a server that really runs Serve().
+type liveConn struct {
+	in, out chan Dgram
+	closed  chan struct{}
+	once    sync.Once
+	local   *net.UDPAddr
+}
+
+func (c *liveConn) ReadMsgUDP(b, oob []byte) (int, int, int, *net.UDPAddr, error) {
+	select {
+	case d := <-c.in:
+		return copy(b, d.Data), 0, 0, d.Addr, nil
+	case <-c.closed:
+		return 0, 0, 0, nil, net.ErrClosed
+	}
+}
+func (c *liveConn) WriteMsgUDP(b, oob []byte, a *net.UDPAddr) (int, int, error) {
+	select {
+	case c.out <- Dgram{a, append([]byte(nil), b...)}:
+	default:
+	}
+	return len(b), 0, nil
+}
+func (c *liveConn) Read(b []byte) (int, error)         { n, _, _, _, e := c.ReadMsgUDP(b, nil); return n, e }
+func (c *liveConn) Write(b []byte) (int, error)        { return 0, ErrClosed }
+func (c *liveConn) Close() error                       { c.once.Do(func() { close(c.closed) }); return nil }
+func (c *liveConn) LocalAddr() net.Addr                { return c.local }
+func (c *liveConn) RemoteAddr() net.Addr               { return nil }
+func (c *liveConn) SetDeadline(time.Time) error        { return nil }
+func (c *liveConn) SetReadDeadline(time.Time) error    { return nil }
+func (c *liveConn) SetWriteDeadline(time.Time) error   { return nil }
+func (c *liveConn) reply(d time.Duration) []byte {
+	select {
+	case x := <-c.out:
+		return x.Data
+	case <-time.After(d):
+		return nil
+	}
+}
+
+// C19RealRotationStart (thorough tier only: it waits for the server's own 2-minute rotation tick):
+// a server that really runs Serve(); a cookie obtained before the tick is presented after it. The
+// rotation is whatever the ticker branch of Serve does — not an overwrite of the key by the driver.
+// Returns the function that waits for the verdict and emits the case.
+func (w *World) C19RealRotationStart() func() {
+	if !hv.Thorough() {
+		return func() {}
+	}
+	type verdict struct {
+		ok        bool
+		sig, what string
+	}
+	res := make(chan verdict, 1)
+	go func() {
+		cv := w.P.Verify(PolStore, "", nil, false)
+		conn := &liveConn{in: make(chan Dgram, 16), out: make(chan Dgram, 16), closed: make(chan struct{}), local: Addr("10.9.9.9", 77)}
+		cfg := SingleConfig(w.Srv, cv, false)
+		cfg.HandshakeTimeout = time.Hour
+		s, err := transport.NewServer(conn, cfg)
+		if err != nil {
+			panic(err)
+		}
+		go s.Serve()
+		defer s.Close()
+		ccfg := w.Cli.ClientConfig(w.P.Verify(PolStore, w.SrvName, nil, false))
+		ackFor := func(a *net.UDPAddr) []byte {
+			hs, err := transport.VerifHsNewClientHS(&ccfg, conn.local, false)
+			if err != nil {
+				panic(err)
+			}
+			buf := make([]byte, 2000)
+			n, _ := transport.VerifHsWritePQClientHello(hs, buf)
+			conn.in <- Dgram{a, append([]byte(nil), buf[:n]...)}
+			sh := conn.reply(2 * time.Second)
+			if sh == nil {
+				return nil
+			}
+			if _, err := transport.VerifHsReadPQServerHello(hs, sh); err != nil {
+				return nil
+			}
+			hs.VerifHsRekey(PQName)
+			n, _ = hs.VerifHsWritePQClientAck(buf)
+			return append([]byte(nil), buf[:n]...)
+		}
+		a := Addr("10.3.3.3", 3333)
+		held := ackFor(a)
+		if held == nil {
+			res <- verdict{false, "C19:honest-hello-unanswered", "the running server did not answer a ClientHello"}
+			return
+		}
+		k0 := s.VerifHsCookieKey()
+		deadline := time.Now().Add(150 * time.Second)
+		for s.VerifHsCookieKey() == k0 && time.Now().Before(deadline) {
+			time.Sleep(500 * time.Millisecond)
+		}
+		if s.VerifHsCookieKey() == k0 {
+			res <- verdict{false, "C19:cookie-key-never-rotates", "the cookie key did not change within 150 s of Serve()"}
+			return
+		}
+		conn.in <- Dgram{a, held}
+		if sa := conn.reply(700 * time.Millisecond); sa != nil {
+			res <- verdict{false, "C19:client-ack-accepted-with-cookie-not-under-current-key",
+				"a ClientAck whose cookie was minted before the server's own rotation tick was answered after it (the rotated-out key is still honoured)"}
+			return
+		}
+		b := Addr("10.3.3.4", 3334)
+		fresh := ackFor(b)
+		conn.in <- Dgram{b, fresh}
+		if fresh == nil || conn.reply(2*time.Second) == nil {
+			res <- verdict{false, "C19:honest-client-ack-rejected", "after the rotation tick a fresh hello/ack exchange was not answered"}
+			return
+		}
+		res <- verdict{true, "", ""}
+	}()
+	return func() {
+		v := <-res
+		specCase("C19", "real-rotation-tick", "a server running Serve(): a cookie minted before its own 2-minute rotation tick is presented after the tick (must be refused), then a fresh exchange (must work)", v.ok, v.sig, v.what, true)
+	}
 }
